@@ -59,7 +59,28 @@ def run(ctx):
             yl = [(e if m else float(v)) for v, m in zip(y, miss)]
             cases.append(dict(kind=kind, y=yl, nodata=nd, n=len(y), **params))
             index.append(gi)
-    res, log = core.run_impl("whit_impl.py", dict(kernels=cases), timeout=3000)
+    # accessors: one pixel per number of valid cells 0..7 (the pass-through thresholds are 2 and 5); what is reported for a pixel
+    # that was passed through is lambda 0 (sgrid = -inf) and the untouched series
+    T = 12
+    acc = []
+    for op, thr in (("whitsvc", 2), ("whitswcv", 5)):
+        for ndv in (-3000.0, 0.0):
+            cube = np.round(rng.normal(3000, 600, size=(2, 4, T)))
+            cube[cube == ndv] += 1
+            for i in range(8):
+                px = cube[i // 4, i % 4]
+                keep = rng.choice(T, size=i, replace=False)
+                m = np.ones(T, dtype=bool)
+                m[keep] = False
+                px[m] = ndv
+            a = dict(op=op, cube=cube.tolist(), nodata=ndv, order=("time", "y", "x"), thr=thr)
+            if op == "whitsvc":
+                a["srange"] = [float(v) for v in np.arange(-1, 1.2, 0.5)]
+            else:
+                a["srange"] = [float(v) for v in np.arange(-1, 2.2, 1.0)]
+                a["robust"] = False
+            acc.append(a)
+    res, log = core.run_impl("whit_impl.py", dict(kernels=cases, accessors=acc), timeout=3000)
     if res is None:
         ctx.violation("implementation run failed", dict(kind="impl-crash", log=log[-3000:]), found_input=False)
         return
@@ -67,6 +88,23 @@ def run(ctx):
     spec_fail, coq, fn, meta = [], [], [], []
     dist = dict(groups=len(groups), encodings=len(cases), by_variant={}, nonfinite_placeholders=0, passthrough_groups=0, pairs_compared=0,
                 valid_counts={})
+    dist["accessor_pixels"] = 0
+    for a, r in zip(acc, res["accessors"]):
+        ma = dict(kind=a["op"], nodata=a["nodata"], n=10 ** 6)
+        if "error" in r:
+            spec_fail.append((ma, "%s raised %s" % (a["op"], r["error"])))
+            continue
+        for i in range(8):
+            px = a["cube"][i // 4][i % 4]
+            band, sg = r["band"][i // 4][i % 4], r["sgrid"][i // 4][i % 4]
+            dist["accessor_pixels"] += 1
+            mm = dict(ma, valid_cells=i, y=px, band=band, sgrid=sg, n=len(px))
+            if i < a["thr"]:
+                if band != [int(v) for v in px] or sg != float("-inf"):
+                    spec_fail.append((mm, "%s: a pixel with %d valid cells (< %d) must come back unchanged with lambda 0 (sgrid = -inf); got sgrid %r"
+                                      % (a["op"], i, a["thr"], sg)))
+            elif not (sg == sg and abs(sg) != float("inf")):
+                spec_fail.append((mm, "%s: a pixel with %d valid cells must be smoothed at a grid lambda; got sgrid %r" % (a["op"], i, sg)))
     by_group = {}
     for c, r, gi in zip(cases, res["kernels"], index):
         by_group.setdefault(gi, []).append((c, r))
